@@ -9,7 +9,7 @@ from . import binops as B
 
 PROPS = "theories/Props/C14.v"
 MODULE = "Props.C14"
-SUPPORT = ["theories/Proofs/DurationP.v", "theories/Proofs/QuantityP.v"]
+SUPPORT = ["theories/Proofs/DurationP.v", "theories/Proofs/DurationAcc.v", "theories/Proofs/QuantityP.v", "theories/Proofs/Tree.v", "theories/Proofs/ErrBound.v"]
 
 FTYPES = ["f64", "f32"]
 ITYPES = ["i64", "u64", "i32"]
